@@ -12,14 +12,19 @@ Recognition is by role, not by spelling: locals are identified by what is assign
 tuple position of a known API call, `c1 - T30_out`, ...), expressions are compared through normal forms (`nf.eqx` / `nf.match`) that look
 through temporaries and simple helpers, and the residual function may be a lambda or a local closure.  A pair may be assigned as a pair
 (`a, b = e1, e2`: what is left of an inlined helper returning it), be returned by a simple helper, or be read by index from a local holding it.
+Calls made through a `functools.partial` object are written out with all their arguments first (`partials_written_out`), values packed into a
+namedtuple are read as the tuple of their fields (c03 `records_written_out`); the bracketing loop of the point solver may be one `while` or a
+bounded `for` with an `else` clause / `while True` with guard clauses (R04.6 demands the same of every form: the root solve is reached only
+after a test that found residual >= 0 at the final bracket end).
 """
 from __future__ import annotations
 
 import ast
+import copy
 
 import sympy as sp
 
-from ..core import AnchorMissing, Check, Undecided, calls_in, dotted, kwarg, own_nodes, src, walk_guarded
+from ..core import AnchorMissing, Check, FuncInfo, Undecided, calls_in, dotted, kwarg, own_nodes, src, walk_guarded
 from ..flow import CFG
 from ..hydro import n, same_term
 from ..nf import Ctx, eqx, has, match, nf, same
@@ -34,6 +39,159 @@ RET_ROLES = {"findHydroBoundaries": ("c1", "c2", "Tplus", "Tminus", "velocityMid
 
 def _params(fi) -> list[str]:
     return [p for p in fi.params() if p not in ("self", "cls")]
+
+
+# ------------------------------------------------------------------------------------------------ functools.partial written out
+#
+# `N = functools.partial(F, *a, **k)` (F a method `self.m` or a function of the package, N a local assigned once, the bound values plain
+# expressions of parameters / single-assignment locals) is F with those parameters bound: on a copy of the routine
+#   * a call `N(x, .., kw=..)` becomes `F(*a, x, .., **k, kw=..)`, keywords moved to their positions by F's signature;
+#   * N used as a value (handed to a solver) becomes `lambda p, ..: F(*a, p, .., **k)` over F's remaining required parameters;
+#   * the assignment itself goes.
+# The rules then see the evaluations of F with all their arguments, as they were before the partial object was introduced.
+
+_PARTIALS: dict = {}
+
+
+def _plain_value(e, stable: set) -> bool:
+    """an expression without calls over names that keep their value throughout the routine"""
+    for x in ast.walk(e):
+        if isinstance(x, ast.Name):
+            if x.id not in stable:
+                return False
+        elif not isinstance(x, (ast.Constant, ast.Attribute, ast.BinOp, ast.UnaryOp, ast.Subscript, ast.Tuple, ast.Load, ast.operator, ast.unaryop, ast.Slice)):
+            return False
+    return True
+
+
+def partials_written_out(S, fi) -> FuncInfo:
+    key = (id(S), fi.name, id(fi.node))
+    hit = _PARTIALS.get(key)
+    if hit is not None:
+        return hit[1]
+    out = _partials_written_out(S, fi)
+    _PARTIALS[key] = (fi.node, out)
+    return out
+
+
+def _partials_written_out(S, fi) -> FuncInfo:
+    from .c03 import _is_partial, _replace_child, _scope_info, _static
+    if not any(isinstance(x, ast.Call) and _is_partial(S, fi, x) for x in own_nodes(fi.node)):
+        return fi
+    node = copy.deepcopy(fi.node)
+    cur = FuncInfo(fi.module, fi.qual, node, fi.cls, fi.parent)
+    defs = Ctx(S, cur).local_defs()
+    own, own_ids, nested_bound, parent = _scope_info(node)
+    stored = {x.id for x in own if isinstance(x, ast.Name) and isinstance(x.ctx, (ast.Store, ast.Del))}
+    # names that keep one value throughout: parameters never re-bound, locals bound exactly once outside every loop
+    nstores: dict = {}
+    for x in own:
+        if isinstance(x, ast.Name) and isinstance(x.ctx, (ast.Store, ast.Del)):
+            nstores[x.id] = nstores.get(x.id, 0) + 1
+        elif isinstance(x, ast.AugAssign) and isinstance(x.target, ast.Name):
+            nstores[x.target.id] = nstores.get(x.target.id, 0) + 1
+    looped = {y.id for x in own if isinstance(x, (ast.For, ast.AsyncFor, ast.While, ast.ListComp, ast.SetComp, ast.DictComp, ast.GeneratorExp))
+              for y in ast.walk(x) if isinstance(y, ast.Name) and isinstance(y.ctx, (ast.Store, ast.Del))}
+    once = {nm for nm, k_ in nstores.items() if k_ == 1 and nm not in looped and nm not in cur.params()}
+    stable = ({p for p in cur.params() if p not in stored} | set(defs) | once | {"self", "cls"}) - nested_bound
+    mod = S.modules[fi.module]
+    changed = False
+    for st in [x for x in own if isinstance(x, ast.Assign)]:
+        if not (len(st.targets) == 1 and isinstance(st.targets[0], ast.Name) and st.targets[0].id in defs and defs[st.targets[0].id] is st.value
+                and isinstance(st.value, ast.Call) and _is_partial(S, fi, st.value) and st.value.args):
+            continue
+        N, call = st.targets[0].id, st.value
+        if N in nested_bound or any(isinstance(a, ast.Starred) for a in call.args) or any(k.arg is None for k in call.keywords):
+            continue
+        F = call.args[0]
+        callee = None
+        if isinstance(F, ast.Attribute) and isinstance(F.value, ast.Name) and F.value.id == "self" and fi.cls:
+            callee = S.method(f"{fi.module}:{fi.cls}", F.attr)
+            skip = 0 if callee is None or _static(callee) else 1
+        elif isinstance(F, ast.Name) and F.id not in stored and F.id not in cur.params() and F.id not in nested_bound:
+            q = f"{fi.module}:{F.id}" if F.id in mod.funcs else S.resolve_import(fi.module, F.id)
+            callee = S.func(q) if q and S.has_func(q) and S.func(q).parent is None and S.func(q).cls is None else None
+            skip = 0
+        if callee is None or callee.node.args.vararg or callee.node.args.kwarg or callee.node.args.posonlyargs:
+            continue
+        a_ = callee.node.args
+        pos = [x.arg for x in a_.args][skip:]
+        dflt = dict(zip(pos[len(pos) - len(a_.defaults):], a_.defaults)) if a_.defaults else {}
+        kwonly = {x.arg for x in a_.kwonlyargs}
+        bpos, bkw = list(call.args[1:]), {k.arg: k.value for k in call.keywords}
+        if len(bpos) > len(pos) or any(k not in pos[len(bpos):] and k not in kwonly for k in bkw) or not all(_plain_value(e, stable) for e in bpos + list(bkw.values())):
+            continue
+        open_ = [p for p in pos[len(bpos):] if p not in bkw]
+        required = [p for p in open_ if p not in dflt]
+        if any(k.arg for k in a_.kwonlyargs if k.arg not in bkw and a_.kw_defaults[a_.kwonlyargs.index(k)] is None):
+            continue
+
+        def build(args, kws):
+            """F(*bound, *args, **bound keywords, **kws) with the keywords moved to their positions as far as they continue the positional prefix"""
+            allpos = [copy.deepcopy(e) for e in bpos] + list(args)
+            allkw = {k: copy.deepcopy(v) for k, v in bkw.items()}
+            allkw.update(kws)
+            while len(allpos) < len(pos) and pos[len(allpos)] in allkw:
+                allpos.append(allkw.pop(pos[len(allpos)]))
+            return ast.Call(func=copy.deepcopy(F), args=allpos, keywords=[ast.keyword(arg=k, value=v) for k, v in allkw.items()])
+
+        uses = [x for x in ast.walk(node) if isinstance(x, ast.Name) and x.id == N and isinstance(x.ctx, ast.Load)]
+        plan = []
+        ok = True
+        for x in uses:
+            p_ = parent.get(id(x))
+            if isinstance(p_, ast.Call) and p_.func is x:
+                if any(isinstance(a, ast.Starred) for a in p_.args) or any(k.arg is None for k in p_.keywords) or len(bpos) + len(p_.args) > len(pos) \
+                        or any(k.arg in pos[:len(bpos) + len(p_.args)] or (k.arg not in pos and k.arg not in kwonly) for k in p_.keywords):
+                    ok = False
+                    break
+                plan.append((p_, build(list(p_.args), {k.arg: k.value for k in p_.keywords})))
+            elif isinstance(p_, ast.Attribute) and p_.value is x:
+                ok = False                   # .func / .args / an attribute set on the object
+                break
+            elif not required:
+                ok = False
+                break
+            else:
+                taken = {y.id for e in bpos + list(bkw.values()) for y in ast.walk(e) if isinstance(y, ast.Name)} | {"self", "cls"}
+                names = []
+                for p in required:
+                    nm = p
+                    while nm in taken:
+                        nm += "_"
+                    taken.add(nm)
+                    names.append(nm)
+                lam = ast.Lambda(args=ast.arguments(posonlyargs=[], args=[ast.arg(arg=nm) for nm in names], kwonlyargs=[], kw_defaults=[], defaults=[]),
+                                 body=build([ast.Name(id=nm, ctx=ast.Load()) for nm in names], {}))
+                plan.append((x, lam))
+        if not ok or not plan:
+            continue
+        for old, new in plan:
+            ast.copy_location(new, old)
+            for y in ast.walk(new):
+                if not hasattr(y, "lineno"):
+                    ast.copy_location(y, old)
+            _replace_child(parent.get(id(old)), old, new)
+            for c in ast.iter_child_nodes(new):
+                parent[id(c)] = new
+        _replace_child(parent.get(id(st)), st, ast.copy_location(ast.Pass(), st))
+        changed = True
+    # a partial object of a method that takes boundary data, which could not be written out, hides how those data are handed on
+    for x in own_nodes(node):
+        if isinstance(x, ast.Call) and _is_partial(S, fi, x) and x.args and isinstance(x.args[0], ast.Attribute) and isinstance(x.args[0].value, ast.Name) \
+                and x.args[0].value.id == "self" and fi.cls and (m_ := S.method(f"{fi.module}:{fi.cls}", x.args[0].attr)) is not None \
+                and any(_base(p) in ROLE_NAMES for p in m_.params()):
+            raise Undecided(f"{fi.qual}: functools.partial of self.{x.args[0].attr} could not be written out (line {x.lineno})")
+    if not changed:
+        return fi
+    ast.fix_missing_locations(node)
+    return FuncInfo(fi.module, fi.qual, node, fi.cls, fi.parent)
+
+
+def _plain(S, fi) -> FuncInfo:
+    """the routine with partial objects and small records written out (see partials_written_out, c03.records_written_out)"""
+    from .c03 import records_written_out
+    return partials_written_out(S, records_written_out(S, fi))
 
 
 def r04_12(chk: Check):
@@ -90,7 +248,8 @@ class _Point:
 
     def __init__(self, S):
         self.S = S
-        self.fp = fp = S.func(f"{EOM}.findPlasmaProfilePoint")
+        # (a residual bound with functools.partial is written out: every evaluation shows all its arguments again)
+        self.fp = fp = _plain(S, S.func(f"{EOM}.findPlasmaProfilePoint"))
         self.cx = Ctx(S, fp)
         prm = _params(fp)
         if len(prm) != 9:
@@ -127,9 +286,9 @@ class _Point:
         if isinstance(f, ast.Lambda) and len(f.args.args) == 1 and not f.args.defaults:
             return f.args.args[0].arg, f.body
         if isinstance(f, ast.Name):
-            q = f"{EOM}.findPlasmaProfilePoint.{f.id}"
-            if S.has_func(q):
-                fi = S.func(q)
+            from .c06 import _local_func
+            fi = _local_func(S, fp, f.id)
+            if fi is not None and fi.parent is fp:
                 prm = fi.params()
                 body = [st for st in fi.node.body if not (isinstance(st, ast.Expr) and isinstance(st.value, ast.Constant) and isinstance(st.value.value, str))]
                 rebound = sum(1 for x in own_nodes(fp.node) if isinstance(x, (ast.Assign, ast.AugAssign, ast.AnnAssign)) and f.id in {t.id for t in ast.walk(x) if isinstance(t, ast.Name) and isinstance(t.ctx, ast.Store)})
@@ -305,20 +464,18 @@ def r04_3(chk: Check, P: "_Point"):
            not bad, "; ".join(bad)[:300], key="s1s2")
     # role agreement of arguments through the EOM call chain
     methods = S.cls(EOM).methods
+    from .c06 import _nested_funcs
     for cname, fm in sorted(methods.items()):
-        scopes = [(fm, _role_map(fm, S=S))]
-        for q, f_ in S.modules[fm.module].funcs.items():
-            par = f_.parent
-            chain = []
-            while par is not None:
-                chain.append(par)
-                par = par.parent
-            if chain and chain[-1] is fm:
+        # (calls made through a functools.partial object are written out first, so that their arguments take part in the role discipline)
+        scopes = [(_plain(S, fm), None)]
+        scopes[0] = (scopes[0][0], _role_map(scopes[0][0], S=S))
+        todo = list(scopes)
+        while todo:
+            f0, outer = todo.pop()
+            for f_ in _nested_funcs(S, f0, 1):
                 # closures see the enclosing function's locals
-                outer = _role_map(fm, S=S)
-                for anc in reversed(chain[:-1]):
-                    outer = _role_map(anc, outer, S)
                 scopes.append((f_, _role_map(f_, outer, S)))
+                todo.append(scopes[-1])
         for fi, roles in scopes:
             for c in sorted([x for x in own_nodes(fi.node) if isinstance(x, ast.Call)], key=lambda x: (-x.lineno, -x.col_offset)):
                 if not (isinstance(c.func, ast.Attribute) and isinstance(c.func.value, ast.Name) and c.func.value.id == "self" and c.func.attr in methods):
@@ -344,7 +501,7 @@ def r04_3(chk: Check, P: "_Point"):
                     chk.ob("R04.3", fi.where(c), f"{cname} -> {c.func.attr}: boundary data (c1, c2, vMid, T+, T-, vevs, s1, s2) are passed to the parameters "
                            "of the same role", not bad, "; ".join(bad), key=f"roles|{cname}->{c.func.attr}|{len(bad)}")
     # wallPressure unpacks findHydroBoundaries in its return order
-    fw = S.func(f"{EOM}.wallPressure")
+    fw = _plain(S, S.func(f"{EOM}.wallPressure"))
     chk.touch(fw.name)
     cw = Ctx(S, fw)
     unp = [(st, cw.resolve(st.value, helpers=False)) for st in own_nodes(fw.node) if isinstance(st, ast.Assign) and isinstance(st.targets[0], ast.Tuple)]
@@ -397,7 +554,7 @@ def r04_3(chk: Check, P: "_Point"):
     for br, temp, what in (("freeEnergyLow", "Tminus", "low-T phase at T-"), ("freeEnergyHigh", "Tplus", "high-T phase at T+")):
         chk.ob("R04.3", fw.where(), f"wallPressure locates the {what} (the temperature handed to {br} is computed from {temp} alone)",
                bool(seen[br]) and all(r == {temp} for r in seen[br].values()), str({k[:60]: sorted(v) for k, v in seen[br].items()})[:300], key=f"phase-temperature|{br}")
-    fo = S.func(f"{EOM}.findPlasmaProfile")
+    fo = _plain(S, S.func(f"{EOM}.findPlasmaProfile"))
     chk.touch(fo.name)
     co = Ctx(S, fo)
     call = [c for c in calls_in(fo.node, "findPlasmaProfilePoint")]
@@ -547,7 +704,7 @@ def r04_4(chk: Check, P: "_Point"):
     if seen < 3:
         raise AnchorMissing("findPlasmaProfilePoint: fewer than 3 exits found")
     # caller lowers the flag for the sentinel
-    fo = S.func(f"{EOM}.findPlasmaProfile")
+    fo = _plain(S, S.func(f"{EOM}.findPlasmaProfile"))
     go = CFG(fo.node)
     FLAG = "self.successTemperatureProfile"
     low = [x for x in go.nodes if isinstance(x, ast.Assign) and eqx(x.targets[0], FLAG) and eqx(x.value, "False")]
@@ -592,7 +749,7 @@ def _unwrap(e):
 
 def r04_5(chk: Check):
     S = chk.src
-    fi = S.func(f"{EOM}._intermediatePressureResults")
+    fi = _plain(S, S.func(f"{EOM}._intermediatePressureResults"))
     chk.touch(fi.name)
     ci = Ctx(S, fi)
     # roles: (temperature, velocity) profile = result of findPlasmaProfile (or the *Input parameters), fields = wallProfile(...)[0]
@@ -701,12 +858,30 @@ def r04_6(chk: Check, P: "_Point"):
         if okA and okB:
             K = sa[0].id
             okB = match(ib[0], f"{A} * {K}") is not None
-            # the loop that moves the bracket runs while residual(B) < 0, and the root solve is reached only through its exit
-            tests = [t for t in g.nodes if g.kind.get(t) == "test" and isinstance(t, ast.Compare) and len(t.ops) == 1
-                     and ((isinstance(t.ops[0], ast.Lt) and eqx(t.comparators[0], "0") and (tt := P.residual_at(t.left)) is not None and eqx(tt, B))
-                          or (isinstance(t.ops[0], ast.Gt) and eqx(t.left, "0") and (tt := P.residual_at(t.comparators[0])) is not None and eqx(tt, B)))]
-            okL = len(tests) == 1 and g.must_pass(CFG.ENTRY, rs_node, lambda q: q is tests[0]) \
-                and not g.reaches(g.branch(tests[0], True), rs_node, avoid=lambda q: q is tests[0])
+            # the bracket is moved while residual(B) < 0, and the root solve is reached only after a test that found residual(B) >= 0 at the
+            # final B: every path to the root solve passes such a test, none leaves a test on its `residual(B) < 0` side and arrives without being
+            # tested again, and the bracket is not moved between the last test and the root solve (one `while` test, or several tests of a
+            # bounded `for` loop with an `else` clause)
+            def negative_when(t):
+                """polarity of the test t under which residual(B) < 0 (None: t is not such a test)"""
+                pol = True
+                while isinstance(t, ast.UnaryOp) and isinstance(t.op, ast.Not):
+                    t, pol = t.operand, not pol
+                if not (isinstance(t, ast.Compare) and len(t.ops) == 1):
+                    return None
+                l_, op, r_ = t.left, t.ops[0], t.comparators[0]
+                for x, zero, lt, ge in ((l_, r_, ast.Lt, ast.GtE), (r_, l_, ast.Gt, ast.LtE)):
+                    if eqx(zero, "0") and isinstance(op, (lt, ge)) and (tt := P.residual_at(x)) is not None and eqx(tt, B):
+                        return pol if isinstance(op, lt) else not pol
+                return None
+
+            tests = {t: pw for t in g.nodes if g.kind.get(t) == "test" and (pw := negative_when(t)) is not None}
+            is_test = lambda q: any(q is t for t in tests)
+            moves = [d for d in g.nodes if g.kind.get(d) not in ("def", "handler") and g.defs_of(d) & {A, B}]
+            okL = bool(tests) and g.must_pass(CFG.ENTRY, rs_node, is_test) \
+                and not any(g.reaches(g.branch(t, pw), rs_node, avoid=is_test) for t, pw in tests.items()) \
+                and not any(g.reaches(g.branch(t, not pw), d, avoid=is_test) and g.reaches(set(g.succ.get(d, ())), rs_node, avoid=is_test)
+                            for t, pw in tests.items() for d in moves)
             ok = okA and okB and okL
     chk.ob("R04.6", fp.where(), "the root is bracketed between the minimiser side and the test temperature", ok, n(br) if br is not None else "", key="bracket")
     # velocity: every non-sentinel exit returns plasmaVelocity(fields, T, s1) at the returned temperature
